@@ -2,6 +2,7 @@ mod common;
 mod matcher;
 mod exec;
 mod config;
+mod envdir;
 
 use common::*;
 use std::sync::Mutex;
@@ -33,6 +34,7 @@ fn main() {
             "C01" | "C02" | "C03" => matcher::replay(&r),
             "C05" | "C14" | "C15" | "C20" => exec::replay(&prop, &r),
             "C16" => config::replay(&prop, &r),
+            "C18" => envdir::replay(&prop, &r),
             _ => { eprintln!("no replay for {prop}"); false }
         };
         std::process::exit(if ok { 0 } else { 1 });
@@ -43,6 +45,7 @@ fn main() {
         "C01" | "C02" | "C03" => matcher::run(&ctx, &prop),
         "C05" | "C14" | "C15" | "C20" => exec::run(&ctx, &prop),
         "C16" => config::run(&ctx, &prop),
+        "C18" => envdir::run(&ctx, &prop),
         _ => { eprintln!("unknown property {prop}"); std::process::exit(2); }
     }
     let rep = ctx.report.lock().unwrap();
